@@ -207,6 +207,14 @@ func c20Random(c *fw.Ctx, idx int) {
 	if r.Chance(1, 3) {
 		n = r.Range(0, 12)
 	}
+	if r.Chance(1, 80) {
+		// long sequences: hundreds of nested intervals (a zig-zag splits once per point)
+		n = r.Range(250, 3000)
+		if r.Bool() {
+			n = []int{255, 256, 257, 258, 259, 300, 511, 512, 513, 514, 515, 1023, 1024, 1025, 1026, 1027, 2048, 2050}[r.Intn(18)]
+		}
+		c.Count("sequences_of_250_to_3000_points")
+	}
 	stride := r.Range(2, 5)
 	pts := make([][2]float64, 0, n)
 	classes := []string{"random-walk", "closed-loop", "repeats", "collinear-runs", "zigzag", "spike-near-end", "uniform"}
